@@ -478,6 +478,13 @@ func genB(tier string) []proto.RTItem {
 			items = append(items, proto.RTItem{Scn: r, Class: fmt.Sprintf("wire/every-call-fails/%s/runs=%d,e2e=%d", map[bool]string{false: "RunTraceroute", true: "http"}[http], c[0], c[1])})
 		}
 	}
+	// two requests for the same destination with DIFFERENT counts overlap on one Traceroute value (the HTTP server keeps one):
+	// each gets its own runs and samples (default schedule: the second request arrives while the first is in flight)
+	for _, c := range [][4]int{{2, 1, 1, 0}, {1, 0, 2, 1}, {1, 1, 1, 2}} {
+		r := proto.RTScn{Hostname: "203.0.113.77", Protocol: "udp", MinTTL: 1, MaxTTL: 4, DelayMs: 10, TimeoutMs: 100, Queries: c[0], E2e: c[1], Dest: 3, IPIDBase: 1500, EchoBase: 150,
+			Overlap2: true, SiblingQueries: c[2], SiblingE2e: c[3], Bound: -1}
+		items = append(items, proto.RTItem{Scn: r, Class: fmt.Sprintf("wire/overlapping-requests/runs=%d,e2e=%d+runs=%d,e2e=%d", c[0], c[1], c[2], c[3])})
+	}
 	// a request no run or probe of which can start (a protocol name the library does not know): an error, no result
 	for _, http := range []bool{false, true} {
 		for _, pn := range []string{"sctp", "UDP6"} {
@@ -551,6 +558,14 @@ func checkB(it *proto.RTItem, r *proto.RTResult) []proto.Issue {
 	}
 	if len(r.Res.Traceroute.Runs) != it.Scn.Queries || len(r.Res.E2eProbe.RTTs) != it.Scn.E2e {
 		return []proto.Issue{{Key: "counts", Detail: r.Summary()}}
+	}
+	if it.Scn.Overlap2 {
+		if r.Err2 != nil || r.Res2 == nil {
+			return []proto.Issue{{Key: "sibling-request-failed", Detail: fmt.Sprint(r.Err2)}}
+		}
+		if len(r.Res2.Traceroute.Runs) != it.Scn.SiblingQueries || len(r.Res2.E2eProbe.RTTs) != it.Scn.SiblingE2e {
+			return []proto.Issue{{Key: "counts", Detail: fmt.Sprintf("the overlapping sibling request asked for %d runs and %d samples and got %d and %d", it.Scn.SiblingQueries, it.Scn.SiblingE2e, len(r.Res2.Traceroute.Runs), len(r.Res2.E2eProbe.RTTs))}}
+		}
 	}
 	return nil
 }
